@@ -312,7 +312,22 @@ fn do_propagate_fallback_levels(
                 )
             }
         }
-        Expr::NontermRef { .. } | Expr::Command { .. } => expr_id,
+        Expr::Command { fallback, .. } if fallback == fallback_level => expr_id,
+        Expr::Command {
+            cmd,
+            zsh_compadd,
+            span,
+            ..
+        } => alloc(
+            arena,
+            Expr::Command {
+                cmd,
+                zsh_compadd,
+                fallback: fallback_level,
+                span,
+            },
+        ),
+        Expr::NontermRef { .. } => expr_id,
         Expr::Sequence { children, span } => {
             let new_children: Vec<ExprId> = children
                 .iter()
